@@ -11,6 +11,7 @@ import (
 type Tok struct {
 	K string // id | str | num | punct
 	V string
+	Q string // str: the quote character
 }
 
 // Lex splits src into tokens. lineComment is "//" (Dart) or "--" (SQL); strings use ' or " (and
@@ -34,7 +35,7 @@ func Lex(src, lineComment string) ([]Tok, error) {
 			}
 			i += j + 4
 		case strings.HasPrefix(src[i:], "$$"):
-			out = append(out, Tok{"punct", "$$"})
+			out = append(out, Tok{K: "punct", V: "$$"})
 			i += 2
 		case c == '\'' || c == '"':
 			j := i + 1
@@ -59,31 +60,31 @@ func Lex(src, lineComment string) ([]Tok, error) {
 			if j >= len(src) {
 				return nil, fmt.Errorf("unterminated string")
 			}
-			out = append(out, Tok{"str", b.String()})
+			out = append(out, Tok{"str", b.String(), string(c)})
 			i = j + 1
 		case c >= '0' && c <= '9':
 			j := i
 			for j < len(src) && (src[j] >= '0' && src[j] <= '9' || src[j] == '.') {
 				j++
 			}
-			out = append(out, Tok{"num", src[i:j]})
+			out = append(out, Tok{K: "num", V: src[i:j]})
 			i = j
 		case c == '_' || unicode.IsLetter(rune(c)) || c >= 0x80:
 			j := i
 			for j < len(src) && (src[j] == '_' || src[j] >= 0x80 || unicode.IsLetter(rune(src[j])) || unicode.IsDigit(rune(src[j]))) {
 				j++
 			}
-			out = append(out, Tok{"id", src[i:j]})
+			out = append(out, Tok{K: "id", V: src[i:j]})
 			i = j
 		default:
 			for _, op := range []string{"->>", "#>>", "->", "!=", "<>", ":=", "::", "=>", "<=", ">=", "||"} {
 				if strings.HasPrefix(src[i:], op) {
-					out = append(out, Tok{"punct", op})
+					out = append(out, Tok{K: "punct", V: op})
 					i += len(op)
 					goto next
 				}
 			}
-			out = append(out, Tok{"punct", string(c)})
+			out = append(out, Tok{K: "punct", V: string(c)})
 			i++
 		next:
 		}
